@@ -95,7 +95,7 @@ pub fn sfs_delayed(ctx: &Ctx, args: &[&str], stdin: &[u8], first: usize) -> Run 
                 std::thread::sleep(std::time::Duration::from_millis(1));
             }
         }
-        std::thread::sleep(std::time::Duration::from_millis(40));
+        std::thread::sleep(std::time::Duration::from_millis(3));
         let _ = si.write_all(&bytes[first..]);
     });
     let out = child.wait_with_output().expect("wait");
@@ -110,7 +110,7 @@ pub fn sfs_fifo(ctx: &Ctx, args: &[&str], bytes: &[u8], first: usize, fifo: &str
         return None;
     }
     let first = first.min(bytes.len());
-    let feeder = feed_fifo(fifo, vec![bytes[..first].to_vec(), bytes[first..].to_vec()], 60);
+    let feeder = feed_fifo(fifo, vec![bytes[..first].to_vec(), bytes[first..].to_vec()], 3);
     let mut cmd = Command::new(&ctx.sfs_bin);
     cmd.args(args).arg(fifo).env("SFS_ALLOW_STDIN", "1").env_remove("RUST_BACKTRACE").env_remove("RUST_LOG")
         .stdout(Stdio::piped()).stderr(Stdio::piped()).stdin(Stdio::null());
@@ -406,7 +406,7 @@ pub fn sfs_side_fifo(ctx: &Ctx, args: &[&str], fifo: &str, content: &[u8], stdin
     // the secondary input arrives in two bursts when it has more than one line (first line, a pause, the rest)
     let cut = content.iter().position(|b| *b == b'\n').map(|p| p + 1).filter(|p| *p < content.len());
     let parts = match cut { Some(c) => vec![content[..c].to_vec(), content[c..].to_vec()], None => vec![content.to_vec()] };
-    let feeder = feed_fifo(fifo, parts, 20);
+    let feeder = feed_fifo(fifo, parts, 3);
     let mut cmd = Command::new(&ctx.sfs_bin);
     cmd.args(args).env("SFS_ALLOW_STDIN", "1").env_remove("RUST_BACKTRACE").env_remove("RUST_LOG")
         .stdout(Stdio::piped()).stderr(Stdio::piped()).stdin(if stdin.is_some() { Stdio::piped() } else { Stdio::null() });
